@@ -170,10 +170,10 @@ def _stored_pair(a3, a4, f: Func, flow: Flow) -> Optional[str]:
     return None
 
 
-def r2_sites(prog, rep: Report, ss: Cls):
-    rep.rule("C10.R2", "membership and construction agree: every eq_relation call passes (probe start, probe end, stored "
+def r2_sites(prog, rep: Report, ss: Cls, rule: str = "C10.R2", floor: int = 3):
+    rep.rule(rule, "membership and construction agree: every eq_relation call passes (probe start, probe end, stored "
              "start, stored end) with the stored pair taken at one common index; __contains__ is an existential scan over "
-             "all stored spans; the constructor keeps a span iff no span kept so far matches", floor=3)
+             "all stored spans; the constructor keeps a span iff no span kept so far matches", floor=floor)
     # ---- __contains__
     f = prog.method(ss, "__contains__")
     rep.fn(f)
@@ -181,18 +181,18 @@ def r2_sites(prog, rep: Report, ss: Cls):
     span = f.params[1]
     calls = _eq_calls(f)
     if len(calls) != 1:
-        rep.unrec("C10.R2", f, "contains", f"expected one eq_relation call, found {len(calls)}")
+        rep.unrec(rule, f, "contains", f"expected one eq_relation call, found {len(calls)}")
     else:
         c = calls[0]
         a = c.args
         probe_ok = len(a) == 4 and _is_component(a[0], span, 0, flow) and _is_component(a[1], span, 1, flow)
         stored = _stored_pair(a[2], a[3], f, flow) if len(a) == 4 else None
-        rep.check("C10.R2", f, "contains:roles", probe_ok and stored is not None,
+        rep.check(rule, f, "contains:roles", probe_ok and stored is not None,
                   f"eq_relation(probe[0], probe[1], {stored})",
                   f"argument roles of `{src(c)}` are not (probe start, probe end, stored start, stored end at one index)",
                   scenario="with an asymmetric relation (PartOf/Includes) `x in S` answers the converse question; or start "
                            "and end of different stored spans are combined", line=c.lineno)
-        rep.check("C10.R2", f, "contains:scan", _existential_scan(f, c),
+        rep.check(rule, f, "contains:scan", _existential_scan(f, c),
                   "returns True on the first match over all stored spans and False after the scan",
                   "__contains__ is not an existential scan (True inside the match test over all stored spans, False after it)",
                   scenario="a span related only to the last stored span is reported absent (scan ends early), or an empty set "
@@ -203,7 +203,7 @@ def r2_sites(prog, rep: Report, ss: Cls):
     flow = Flow(f.node)
     calls = _eq_calls(f)
     if len(calls) < 1:
-        rep.unrec("C10.R2", f, "init", "no eq_relation call in the constructor")
+        rep.unrec(rule, f, "init", "no eq_relation call in the constructor")
         return
     for k, c in enumerate(calls):
         a = c.args
@@ -214,14 +214,14 @@ def r2_sites(prog, rep: Report, ss: Cls):
         if loop is not None and len(a) == 4:
             new_pair = _new_span_pair(loop, a[0], a[1], f)
         role = f"init:branch{k}"
-        rep.check("C10.R2", f, role + ":roles", stored is not None and new_pair is not None,
+        rep.check(rule, f, role + ":roles", stored is not None and new_pair is not None,
                   f"eq_relation({new_pair}, {stored})",
                   f"argument roles of `{src(c)}` are not (new start, new end, kept start, kept end at one index)",
                   scenario="construction with PartOf/Includes keeps or drops the wrong spans (converse relation), so "
                            "len(SpanSet(...)) and every operator result differ from the definition", line=c.lineno)
         # keep-iff-no-match: flag False + break inside the match; append both under the flag after the inner loop
         ok, why = _keep_iff_no_match(loop, inner, c, a, f)
-        rep.check("C10.R2", f, role + ":keep-iff-no-match", ok, "span appended iff the scan over the kept spans found no match",
+        rep.check(rule, f, role + ":keep-iff-no-match", ok, "span appended iff the scan over the kept spans found no match",
                   why, scenario="SpanSet([(1,2),(1,2)]) keeps both spans, or drops a span that matches nothing",
                   line=c.lineno)
 
